@@ -434,7 +434,7 @@ def run_basic(case):
         if call["lvl"] == "sampler" and "len" in o.extra:
             if call["by"] == "n" and o.extra["len"] != call["n"]:
                 res["viol"].append(viol("len", "len(sampler)=%d for n_points=%d (%s)" % (o.extra["len"], call["n"], call), **mech))
-            if call["by"] == "d" and k == 0 and o.extra["len"] != len(pts):
+            if call["by"] == "d" and k == 0 and o.extra["len"] != o.extra.get("last_rows", len(pts)):
                 res["viol"].append(viol("len", "len(sampler)=%d but the parameter-free call returned %d rows (%s on %s)"
                                         % (o.extra["len"], len(pts), call, info["desc"]), **mech))
             res["counters"]["len_checked"] = res["counters"].get("len_checked", 0) + 1
